@@ -29,7 +29,7 @@ class ScriptedRandomState(numpy.random.RandomState):
         return out
 
 
-def coded_founders(n, p, xoprob, chrgrp=None):
+def coded_founders(n, p, xoprob, chrgrp=None, group=True, phypos=None):
     """n founders, p markers; every chromosome copy carries its own int8 code
     (2*taxon + phase) at all loci, so that provenance of every progeny allele
     can be read off"""
@@ -46,14 +46,15 @@ def coded_founders(n, p, xoprob, chrgrp=None):
         taxa=numpy.array(["P%03d" % i for i in range(n)], dtype=object),
         taxa_grp=numpy.arange(n, dtype="int64"),
         vrnt_chrgrp=numpy.asarray(chrgrp, dtype="int64"),
-        vrnt_phypos=numpy.arange(1, p + 1, dtype="int64") * 10,
+        vrnt_phypos=numpy.arange(1, p + 1, dtype="int64") * 10 if phypos is None else numpy.asarray(phypos, dtype="int64"),
         vrnt_name=numpy.array(["m%d" % i for i in range(p)], dtype=object),
         vrnt_genpos=numpy.linspace(0.0, 1.0, p) if p > 1 else numpy.zeros(p),
         vrnt_xoprob=numpy.asarray(xoprob, dtype=float),
         vrnt_hapgrp=numpy.arange(p, dtype="int64"),
         vrnt_mask=numpy.ones(p, dtype=bool),
     )
-    pg.group_vrnt()
+    if group:
+        pg.group_vrnt()
     return pg
 
 
